@@ -1067,3 +1067,605 @@ Lemma step_writes_ValInv s p s' :
 Proof.
   intros Hwf V Hp Hok H. destruct (pass_writes s p s' Hwf V Hp Hok H) as (t' & sLp & sL & at_ & al & E). apply E.
 Qed.
+
+(** * C. C07: a pass in which one node function returns an error, and the retry *)
+
+(** the loop invariant only reads node records, the heap, a few counters and the pass's
+    invocation / cutoff events *)
+Lemma LInv_transport h0 base s cur s' cur' :
+  LInv h0 base s cur ->
+  (forall n, nd s' n = nd s n) -> (forall n, has s' n <-> has s n) ->
+  binds s' = binds s -> next s' = next s -> stabNum s' = stabNum s ->
+  HeapSpec.inv (heap s') ->
+  (forall q, q ∈ Heap.ids (heap s') -> inGraph (nd s q) = true /\ Heap.hinOf (heap s') q = height (nd s q)) ->
+  (forall x, inW s' cur' x = inW s cur x) ->
+  (forall m x, cur' = Some m -> x ∈ Heap.ids (heap s') -> reach s x m -> False) ->
+  (exists l, log s' = l ++ log s /\ Forall (fun e => ev_node e = None) l) ->
+  LInv h0 base s' cur'.
+Proof.
+  intros L Hnd Hhas Hb Hnx Hk Iw Hq HW HM (l & Hl & Hnone).
+  pose proof (li_bf _ _ _ _ L) as HBF.
+  assert (Hr : forall a b, reach s' a b <-> reach s a b).
+  { intros a b. unfold reach. split; induction 1; try apply rtc_refl; eapply rtc_l; eauto;
+      unfold edge in *; [rewrite <- Hnd|rewrite Hnd]; assumption. }
+  assert (Hval : forall p, valueOf s' p = valueOf s p).
+  { intros p. apply PassProofs.valueOf_ext. intros n. rewrite Hnd. auto. }
+  assert (HBF' : BF s').
+  { split; [rewrite Hb; apply HBF|]. intros n y Hy. assert (Hn : has s n) by (apply Hhas; exists y; exact Hy).
+    rewrite <- (nd_lookup _ _ _ Hy), Hnd. pose proof (bf_node_nd s HBF n Hn) as Hbn.
+    unfold bf_node in *. rewrite Hnx. exact Hbn. }
+  assert (Hstale : forall n, isStale s' n = isStale s n).
+  { intros n. apply isStale_same; [apply Hnd|exact Hk|]. intros p _. rewrite Hnd. reflexivity. }
+  assert (Hdone : forall n, isDone s' n = isDone s n) by (intros n; unfold isDone; rewrite Hnd, Hk; reflexivity).
+  assert (Hgd : forall n, guarded s' cur' n = guarded s cur n).
+  { intros n. unfold guarded, volq. rewrite Hnd. apply forallb_ext. intros p _. rewrite !Hnd, Hk, HW. reflexivity. }
+  assert (Hcons : forall n, node_consistent s' n = node_consistent s n).
+  { intros n. rewrite !node_consistent_val by (rewrite ?Hnd; apply (bf_kind s HBF)). rewrite Hnd.
+    apply consistent_val_ext; rewrite ?Hnd; try reflexivity. intros p _. apply Hval. }
+  constructor.
+  - exact HBF'.
+  - split; [exact Iw|]. intros q Hin. rewrite !Hnd. apply Hq, Hin.
+  - intros n. unfold stamps_node. rewrite Hnd, Hk. apply (li_stamps _ _ _ _ L n).
+  - intros x n Hx Hxn. rewrite HW in Hx. rewrite Hdone. apply (li_B _ _ _ _ L x n Hx). apply Hr, Hxn.
+  - intros m x Hc Hx Hxm. apply (HM m x Hc Hx). apply Hr, Hxm.
+  - intros n. rewrite Hnd, Hdone, Hstale, HW. apply (li_owed _ _ _ _ L n).
+  - intros n. rewrite Hnd, HW, Hgd, Hcons. apply (li_clean _ _ _ _ L n).
+  - intros n. rewrite HW, Hdone, Hnd. intros Hn. destruct (li_orig _ _ _ _ L n Hn) as [Hg Ho]. split; [exact Hg|].
+    unfold origin in *. rewrite Hnd, Hk. erewrite existsb_ext_local; [exact Ho|]. intros p. rewrite Hnd. reflexivity.
+  - intros n Hn. rewrite HW, Hdone. apply (li_prog _ _ _ _ L n Hn).
+  - destruct (li_log _ _ _ _ L) as (evs & Hlg & Hall & Hnd'). exists (l ++ evs).
+    split; [rewrite Hl, Hlg, app_assoc; reflexivity|]. split.
+    + apply Forall_app. split.
+      * eapply List.Forall_impl; [|exact Hnone]. intros e He. destruct e; try reflexivity; discriminate He.
+      * eapply List.Forall_impl; [|exact Hall]. intros e He. destruct e; try reflexivity; unfold ev_ok in *;
+          rewrite ?Hdone, ?Hnd, ?Hk; [|exact He]. rewrite (map_ext _ _ Hval). exact He.
+    + unfold invoked_of in *. rewrite omap_app.
+      assert (omap (fun e => match e with EvInvoked n _ _ => Some n | _ => None end) l = []) as ->; [|exact Hnd'].
+      clear -Hnone. induction Hnone as [|e l He _ IH]; [reflexivity|]. simpl. destruct e; try exact IH; discriminate He.
+Qed.
+
+(** the plan: the function of node [x] returns an error *)
+Definition failPlan (x : nid) : plan := [(x, WFn, AFail FErr)].
+
+Definition mapKind (k : kind) : bool := match k with KMap _ | KMap2 _ | KMapN _ => true | _ => false end.
+
+Lemma failPlan_actions x m w :
+  actions_of (failPlan x) m w = if (x =? m)%nat && which_eqb w WFn then [AFail FErr] else [].
+Proof. unfold failPlan, actions_of. simpl. destruct ((x =? m)%nat && which_eqb w WFn); reflexivity. Qed.
+
+Lemma invoke_eq p q s n w : actions_of p n w = actions_of q n w -> invoke p s n w = invoke q s n w.
+Proof. intros H. unfold invoke. rewrite H. reflexivity. Qed.
+
+(** every recompute but that of [x] (when [x] has a function) is the plan-free one *)
+Lemma rns_failPlan_other fuel x s m :
+  isBindKind (nkind (nd s m)) = false -> (m <> x \/ mapKind (nkind (nd s m)) = false) ->
+  recomputeNodeSerial fuel (failPlan x) s m = recomputeNodeSerial fuel [] s m.
+Proof.
+  intros Hb Hx. rewrite !recomputeNodeSerial_unfold. cbv zeta.
+  set (s0 := upd s m (set recomputedAt (fun _ => stabNum s))).
+  assert (Hk0 : forall t, (forall y, nd t y = nd s0 y) \/ True -> True) by auto. clear Hk0.
+  assert (Hmc : maybeCutoff (failPlan x) s0 m (nd s m) = maybeCutoff [] s0 m (nd s m)).
+  { unfold maybeCutoff. destruct (nkind (nd s m)); try reflexivity.
+    rewrite (invoke_eq (failPlan x) [] s0 m WCut); [reflexivity|].
+    rewrite failPlan_actions. simpl. rewrite andb_false_r. reflexivity. }
+  rewrite Hmc. destruct (maybeCutoff [] s0 m (nd s m)) as [[[s1 e1] cut]| |] eqn:E1; simpl; try reflexivity.
+  destruct e1; [reflexivity|]. destruct cut; [reflexivity|].
+  assert (Hk1 : nkind (nd s1 m) = nkind (nd s m)).
+  { apply maybeCutoff_spec in E1 as (V1 & _). destruct (vps_fields _ _ (V1 m)) as (-> & _).
+    apply (nd_upd_proj nkind). reflexivity. }
+  assert (Hsn : stabilizeNode fuel (failPlan x) s1 m = stabilizeNode fuel [] s1 m).
+  { unfold stabilizeNode. rewrite Hk1.
+    assert (Hinv : mapKind (nkind (nd s m)) = true -> invoke (failPlan x) s1 m WFn = invoke [] s1 m WFn).
+    { intros Hmk. apply invoke_eq. rewrite failPlan_actions. destruct Hx as [Hx|Hx]; [|congruence].
+      destruct (Nat.eqb_spec x m); [congruence|reflexivity]. }
+    destruct (nkind (nd s m)); try reflexivity; try discriminate Hb; rewrite Hinv by reflexivity; reflexivity. }
+  rewrite Hsn. reflexivity.
+Qed.
+
+(** the failing recompute: the stamp is restored, the node goes back to the queue *)
+Lemma rns_failPlan_fail fuel x s s' e imm :
+  has s x -> mapKind (nkind (nd s x)) = true ->
+  recomputeNodeSerial fuel (failPlan x) s x = Ok (s', e, imm) ->
+  e = Some (EUser x) /\ imm = None /\
+  exists s3,
+    heapAddIfNotPresent
+      (upd (emit (EvFault x WFn FErr) (upd s x (set recomputedAt (fun _ => stabNum s)))) x
+           (set recomputedAt (fun _ => recomputedAt (nd s x)))) x = Ok s3 /\
+    s' = emit (EvErrH x) s3.
+Proof.
+  intros Hx Hmk H. rewrite recomputeNodeSerial_unfold in H. cbv zeta in H.
+  set (s0 := upd s x (set recomputedAt (fun _ => stabNum s))) in *.
+  assert (Hk0 : nkind (nd s0 x) = nkind (nd s x)) by (apply (nd_upd_proj nkind); reflexivity).
+  assert (Hmc : maybeCutoff (failPlan x) s0 x (nd s x) = Ok (s0, None, false)).
+  { unfold maybeCutoff. destruct (nkind (nd s x)); try reflexivity; discriminate Hmk. }
+  rewrite Hmc in H. simpl in H.
+  assert (Hinv : invoke (failPlan x) s0 x WFn = Ok (emit (EvFault x WFn FErr) s0, Some (EUser x))).
+  { unfold invoke. rewrite failPlan_actions, Nat.eqb_refl. reflexivity. }
+  assert (Hsn : stabilizeNode fuel (failPlan x) s0 x = Ok (emit (EvFault x WFn FErr) s0, Some (EUser x))).
+  { unfold stabilizeNode. rewrite Hk0. destruct (nkind (nd s x)); try discriminate Hmk; rewrite Hinv; reflexivity. }
+  rewrite Hsn in H. simpl in H. unfold recomputeFailed in H.
+  destruct (heapAddIfNotPresent _ x) as [s3| |] eqn:E3; simpl in H; try discriminate.
+  injection H as <- <- <-. split; [reflexivity|]. split; [reflexivity|]. exists s3. split; [reflexivity|].
+  unfold errorHandlers.
+  assert (Hk3 : nkind (nd s3 x) = nkind (nd s x)).
+  { unfold heapAddIfNotPresent in E3. destruct (inHeap _ x).
+    - injection E3 as <-. rewrite (nd_upd_proj nkind) by reflexivity. exact Hk0.
+    - apply heapAdd_inv in E3 as (w & _ & ->). change (nkind (nd (upd (emit (EvFault x WFn FErr) s0) x (set recomputedAt (fun _ => recomputedAt (nd s x)))) x) = nkind (nd s x)).
+      rewrite (nd_upd_proj nkind) by reflexivity. exact Hk0. }
+  rewrite Hk3. destruct (nkind (nd s x)); try discriminate Hmk; reflexivity.
+Qed.
+
+Lemma node_eta_rec (y : node) a : y <| recomputedAt := a |> <| recomputedAt := recomputedAt y |> = y.
+Proof. destruct y; reflexivity. Qed.
+
+Definition chainPost (s : state) (n : nid) (s' : state) : Prop :=
+  sframe s s' /\
+  (forall y, isDone s' y = true -> isDone s y = true \/ y = n \/ isAlways (nkind (nd s y)) = false) /\
+  (forall y, isDone s' y = false -> nd s' y = nd s y /\ isDone s y = false) /\
+  (cursor_ok (heap s) -> cursor_ok (heap s')).
+
+(** the state after the failing recompute: as before it, with [x] back in the queue *)
+Lemma failed_step h0 base fuel x s s' e imm :
+  Struct s -> LInv h0 base s (Some x) -> mapKind (nkind (nd s x)) = true ->
+  recomputeNodeSerial fuel (failPlan x) s x = Ok (s', e, imm) ->
+  e = Some (EUser x) /\ imm = None /\ LInv h0 base s' None /\ chainPost s x s' /\ inHeap s' x = true /\
+  (forall y, nd s' y = nd s y).
+Proof.
+  intros HS L Hmk H.
+  assert (Hg : inGraph (nd s x) = true).
+  { apply (li_orig _ _ _ _ L x). left. apply inW_iff; [apply (li_heap _ _ _ _ L)|]. right; reflexivity. }
+  assert (Hx : has s x) by (apply has_inGraph, Hg).
+  destruct (rns_failPlan_fail fuel x s s' e imm Hx Hmk H) as (-> & -> & s3 & E3 & ->).
+  split; [reflexivity|]. split; [reflexivity|].
+  set (sA := upd s x (set recomputedAt (fun _ => stabNum s))) in *.
+  set (sB := upd (emit (EvFault x WFn FErr) sA) x (set recomputedAt (fun _ => recomputedAt (nd s x)))) in *.
+  assert (HndB : forall y, nd sB y = nd s y).
+  { intros y. unfold sB. destruct (decide (y = x)) as [->|Hy].
+    - rewrite nd_upd_eq by (apply has_emit, has_upd, Hx). rewrite nd_emit. unfold sA. rewrite nd_upd_eq by exact Hx.
+      apply node_eta_rec.
+    - rewrite nd_upd_ne by exact Hy. rewrite nd_emit. unfold sA. apply nd_upd_ne, Hy. }
+  pose proof (proj1 (li_heap _ _ _ _ L)) as I.
+  assert (Hxq : inHeap s x = false).
+  { apply inHeap_false_iff0; [exact I|]. intros Hq. exact (li_M _ _ _ _ L x x eq_refl Hq (rtc_refl _ _)). }
+  unfold heapAddIfNotPresent in E3. change (inHeap sB x) with (inHeap s x) in E3. rewrite Hxq in E3.
+  assert (IB : HeapSpec.inv (heap sB)) by exact I.
+  destruct (heapAdd_spec0 sB x s3 IB Hxq) as (O3 & I3 & P3 & Hin3); [rewrite HndB; apply (st_hnonneg _ HS x Hg)|exact E3|].
+  set (s' := emit (EvErrH x) s3).
+  assert (Hnd' : forall y, nd s' y = nd s y).
+  { intros y. unfold s'. rewrite nd_emit, (oh_nd _ _ O3). apply HndB. }
+  assert (Hheap' : heap s' = heap s3) by reflexivity.
+  assert (Hids : forall y, y ∈ Heap.ids (heap s') <-> y = x \/ y ∈ Heap.ids (heap s)).
+  { intros y. rewrite Hheap', P3, elem_of_cons. reflexivity. }
+  assert (L' : LInv h0 base s' None).
+  { apply (LInv_transport h0 base s (Some x) s' None L Hnd').
+    - intros y. unfold s'. rewrite has_emit, (oh_has _ _ O3). unfold sB. rewrite has_upd, has_emit. apply has_upd.
+    - unfold s'. cbn. rewrite (oh_binds _ _ O3). reflexivity.
+    - unfold s'. cbn. rewrite (oh_next _ _ O3). reflexivity.
+    - unfold s'. cbn. rewrite (oh_stabNum _ _ O3). reflexivity.
+    - exact I3.
+    - intros q Hq. rewrite Hheap', Hin3. apply Hids in Hq as [->|Hq].
+      + rewrite decide_True by reflexivity. rewrite HndB. auto.
+      + destruct (decide (q = x)) as [->|Hne]; [rewrite HndB; auto|]. apply (li_heap _ _ _ _ L), Hq.
+    - intros y. apply eq_true_iff_eq. rewrite (inW_iff s' None y I3), (inW_iff s (Some x) y I), Hids.
+      split; [intros [[->|?]|?]; auto; discriminate|intros [?|[= ->]]; auto].
+    - discriminate.
+    - exists [EvErrH x; EvFault x WFn FErr]. split; [unfold s'; cbn; rewrite (oh_log _ _ O3); reflexivity|].
+      repeat constructor. }
+  split; [exact L'|]. split; [|split; [|exact Hnd']].
+  - assert (Hdone : forall y, isDone s' y = isDone s y).
+    { intros y. unfold isDone. rewrite Hnd'. unfold s'. cbn. rewrite (oh_stabNum _ _ O3). reflexivity. }
+    split; [|split; [|split]].
+    + constructor; try (unfold s'; cbn; first [rewrite (oh_binds _ _ O3)|rewrite (oh_next _ _ O3)|rewrite (oh_reg _ _ O3)
+        |rewrite (oh_obs _ _ O3)|rewrite (oh_adj _ _ O3)|rewrite (oh_invq _ _ O3)|rewrite (oh_stabNum _ _ O3)
+        |rewrite (oh_status _ _ O3)|rewrite (oh_numNodes _ _ O3)|rewrite (oh_setDuring _ _ O3)
+        |rewrite (oh_setRemoved _ _ O3)|rewrite (oh_maxHeight _ _ O3)]; reflexivity).
+      * intros y. rewrite Hnd'. reflexivity.
+      * intros y. unfold s'. rewrite has_emit, (oh_has _ _ O3). unfold sB. rewrite has_upd, has_emit. apply has_upd.
+    + intros y Hy. left. rewrite <- Hdone. exact Hy.
+    + intros y Hy. split; [apply Hnd'|rewrite <- Hdone; exact Hy].
+    + intros C. rewrite Hheap'. apply heapAdd_inv in E3 as (w & Ew & ->). exact (cursor_add _ _ _ _ IB C Ew).
+  - apply inHeap_iff0; [exact I3|]. apply Hids. left. reflexivity.
+Qed.
+
+Lemma chain_fail h0 base x fuel : forall s n s' e at_,
+  Struct s -> LInv h0 base s (Some n) ->
+  recomputeChain fuel (failPlan x) s n = Ok (s', e, at_) ->
+  LInv h0 base s' None /\ chainPost s n s' /\ (e = None \/ (e = Some (EUser x) /\ inHeap s' x = true)).
+Proof.
+  induction fuel as [|fuel IH]; intros s n s' e at_ HS L H; [discriminate|].
+  cbn [recomputeChain] in H.
+  destruct (recomputeNodeSerial fuel (failPlan x) s n) as [[[s1 e1] imm]| |] eqn:E1; simpl in H; try discriminate.
+  destruct (decide (n = x /\ mapKind (nkind (nd s n)) = true)) as [[-> Hmk]|Hno].
+  - (* the failing recompute *)
+    destruct (failed_step h0 base fuel x s s1 e1 imm HS L Hmk E1) as (-> & -> & L1 & CP & Hq & _).
+    injection H as <- <- <-. split; [exact L1|]. split; [exact CP|]. right. auto.
+  - rewrite rns_failPlan_other in E1.
+    2:{ apply (bf_kind s (li_bf _ _ _ _ L)). }
+    2:{ destruct (decide (n = x)) as [->|]; [right|left; assumption].
+        destruct (mapKind (nkind (nd s x))); [exfalso; apply Hno; auto|reflexivity]. }
+    assert (Hg : inGraph (nd s n) = true).
+    { apply (li_orig _ _ _ _ L n). left. apply inW_iff; [apply (li_heap _ _ _ _ L)|]. right; reflexivity. }
+    destruct (rns_step fuel s n s1 e1 imm (li_bf _ _ _ _ L) (has_inGraph _ _ Hg) (proj1 (li_heap _ _ _ _ L)) E1)
+      as [-> P].
+    pose proof (step_LInv h0 base s n s1 imm HS L P) as L1.
+    pose proof (stepPost_sframe _ _ _ _ P) as F1.
+    assert (Hd1 : forall y, isDone s1 y = true -> isDone s y = true \/ y = n).
+    { intros y. apply (PassProofs.done'_iff s n s1 imm P). }
+    assert (Hu1 : forall y, isDone s1 y = false -> nd s1 y = nd s y /\ isDone s y = false).
+    { intros y Hy. apply (PassProofs.done'_false s n s1 imm P) in Hy as [Hy Hne]. split; [apply (sp_other _ _ _ _ P y Hne)|exact Hy]. }
+    destruct imm as [c|].
+    + destruct (IH s1 c s' e at_ (sf_Struct _ _ F1 HS) L1 H) as (L' & (F' & Hd' & Hu' & Hc') & He).
+      split; [exact L'|]. split; [|exact He].
+      split; [eapply sframe_trans; eauto|]. split; [|split].
+      * intros y Hy. destruct (Hd' y Hy) as [Hy1|[->|Hna]].
+        -- destruct (Hd1 y Hy1); auto.
+        -- right. right. rewrite <- (sf_nkind _ _ F1).
+           destruct (sp_case _ _ _ _ P) as [C|R]; [pose proof (cp_imm _ _ _ _ C); discriminate|].
+           destruct (rp_imm _ _ _ _ R c eq_refl) as [_ Hcan]. unfold canRecomputeImmediately in Hcan.
+           destruct (isAlways (nkind (nd s1 c))); [discriminate|reflexivity].
+        -- right. right. rewrite <- (sf_nkind _ _ F1). exact Hna.
+      * intros y Hy. destruct (Hu' y Hy) as [A1 Hy1]. destruct (Hu1 y Hy1) as [A2 Hy0]. split; congruence.
+      * intros C. apply Hc', (sp_cur _ _ _ _ P), C.
+    + injection H as <- <- <-. split; [exact L1|]. split; [|left; reflexivity].
+      split; [exact F1|]. split; [|split; [exact Hu1|exact (sp_cur _ _ _ _ P)]].
+      intros y Hy. destruct (Hd1 y Hy); auto.
+Qed.
+
+Lemma loop_fail h0 base x fuel : forall s always s' e at_ always',
+  Struct s -> LInv h0 base s None -> AlwaysOK s always ->
+  passLoop fuel (failPlan x) s always = Ok (s', e, at_, always') ->
+  LInv h0 base s' None /\ sframe s s' /\ AlwaysOK s' always' /\
+  (forall y, isDone s' y = false -> nd s' y = nd s y /\ isDone s y = false) /\
+  (cursor_ok (heap s) -> cursor_ok (heap s')) /\
+  ((e = None /\ Heap.ids (heap s') = []) \/ (e = Some (EUser x) /\ inHeap s' x = true)).
+Proof.
+  induction fuel as [|fuel IH]; intros s always s' e at_ always' HS L HA H; [discriminate|].
+  cbn [passLoop] in H. pose proof (proj1 (li_heap _ _ _ _ L)) as I.
+  destruct (Z.leb_spec (Heap.cnt (heap s)) 0) as [Hc|Hc].
+  { injection H as <- <- <- <-. split; [exact L|]. split; [apply sframe_refl|]. split; [exact HA|].
+    split; [auto|]. split; [auto|]. left. split; [reflexivity|apply cnt_zero_ids; assumption]. }
+  destruct (Heap.removeMin (heap s)) as [[n w]|] eqn:Erm; [|discriminate].
+  set (s2 := s <| heap := w |>) in *.
+  set (always2 := if isAlways (nkind (nd s2 n)) then always ++ [n] else always) in *.
+  destruct (recomputeChain fuel (failPlan x) s2 n) as [[[s3 e3] at3]| |] eqn:E3; simpl in H; try discriminate.
+  pose proof (pop_LInv h0 base s n w HS L Erm) as L2.
+  assert (F2 : sframe s s2) by apply sframe_set_heap.
+  destruct (chain_fail h0 base x fuel s2 n s3 e3 at3 (sf_Struct _ _ F2 HS) L2 E3) as (L3 & (F3 & Hd3 & Hu3 & Hc3) & He3).
+  assert (HA3 : AlwaysOK s3 always2).
+  { destruct HA as [HA1 HA2]. split.
+    - intros y Hk Hd. rewrite (sf_nkind _ _ F3) in Hk. change (nd s2 y) with (nd s y) in Hk.
+      destruct (Hd3 y Hd) as [Hy|[->|Hy]].
+      + unfold always2. destruct (isAlways (nkind (nd s2 n))); [apply elem_of_app; left|]; apply HA1; assumption.
+      + unfold always2. change (nd s2 n) with (nd s n). rewrite Hk. apply elem_of_app. right. left.
+      + change (nd s2 y) with (nd s y) in Hy. congruence.
+    - intros y Hy. rewrite (sf_inGraph _ _ F3), (sf_nkind _ _ F3). change (nd s2 y) with (nd s y).
+      unfold always2 in Hy. change (nd s2 n) with (nd s n) in Hy.
+      assert (Hng : inGraph (nd s n) = true).
+      { apply (li_orig _ _ _ _ L2 n). left. apply inW_iff; [apply (li_heap _ _ _ _ L2)|]. right; reflexivity. }
+      destruct (isAlways (nkind (nd s n))) eqn:Ek; [|apply HA2, Hy].
+      apply elem_of_app in Hy as [Hy|Hy]; [apply HA2, Hy|]. apply elem_of_list_singleton in Hy as ->. auto. }
+  assert (Hcur3 : cursor_ok (heap s3)) by (apply Hc3; exact (cursor_removeMin _ _ _ I Erm)).
+  assert (Hu23 : forall y, isDone s3 y = false -> nd s3 y = nd s y /\ isDone s y = false) by exact Hu3.
+  destruct e3 as [e3|].
+  - injection H as <- <- <- <-. destruct He3 as [?|[-> Hq]]; [discriminate|].
+    split; [exact L3|]. split; [eapply sframe_trans; eauto|]. split; [exact HA3|]. split; [exact Hu23|].
+    split; [auto|]. right. auto.
+  - destruct (IH s3 always2 s' e at_ always' (sf_Struct _ _ F3 (sf_Struct _ _ F2 HS)) L3 HA3 H)
+      as (L' & F' & HA' & Hu' & Hc' & He').
+    split; [exact L'|]. split; [eapply sframe_trans; [exact F2|]; eapply sframe_trans; eauto|]. split; [exact HA'|].
+    split; [|split; [intros _; apply Hc', Hcur3|exact He']].
+    intros y Hy. destruct (Hu' y Hy) as [A1 Hy1]. destruct (Hu23 y Hy1) as [A2 Hy0]. split; [congruence|exact Hy0].
+Qed.
+
+(** ** the end of a failed pass *)
+Lemma stabilizeEnd_quiet s3 e s' :
+  setDuring s3 = [] -> setRemoved s3 = [] -> stabilizeEnd s3 e = Ok s' ->
+  nodes s' = nodes s3 /\ heap s' = heap s3 /\ binds s' = binds s3 /\ next s' = next s3 /\
+  stabNum s' = stabNum s3 + 1 /\ reg s' = reg s3 /\ obs s' = obs s3 /\ adj s' = adj s3 /\ invq s' = invq s3 /\
+  numNodes s' = numNodes s3 /\ maxHeight s' = maxHeight s3 /\
+  status s' = 0 /\ handlers s' = [] /\ setDuring s' = [] /\ setRemoved s' = [].
+Proof.
+  intros Hsd Hsr H. unfold stabilizeEnd in H. rewrite runUpdateHandlers_eq in H. cbv zeta in H.
+  rewrite applyDeferredSets_unfold in H. cbn in H. rewrite Hsd, Hsr in H. simpl in H.
+  injection H as <-. cbn. repeat split.
+Qed.
+
+(** from the loop invariant at the moment the loop stopped to the quiescent invariant *)
+Lemma finish_ValInv h0 base s sL always s' :
+  ValInv s -> Struct sL -> LInv h0 base sL None -> AlwaysOK sL always ->
+  stabNum sL = stabNum s ->
+  (forall y, isDone sL y = false -> nd sL y = nd s y) ->
+  nodes s' = nodes sL -> binds s' = binds sL -> next s' = next sL -> stabNum s' = stabNum sL + 1 ->
+  (forall y, inHeap sL y = true -> inHeap s' y = true) ->
+  (forall y, y ∈ always -> inHeap s' y = true) ->
+  ValInv s'.
+Proof.
+  intros V HSL LL HAL Hk Hun Hn Hb Hnx Hk' Hq Hqa.
+  pose proof (li_bf _ _ _ _ LL) as HBFL. pose proof (nodes_eq_nd _ _ Hn) as Hnd.
+  pose proof (proj1 (li_heap _ _ _ _ LL)) as IL.
+  assert (Hkpos : 1 <= stabNum s) by (pose proof (stamps_node_true _ _ (vi_stamps _ V 0%nat)); lia).
+  assert (HstL : forall n, 0 <= changedAt (nd sL n) <= recomputedAt (nd sL n) /\ recomputedAt (nd sL n) <= stabNum s).
+  { intros n. rewrite <- Hk. apply stamps_node_false, (li_stamps _ _ _ _ LL). }
+  assert (Hstale : forall n, isStale s' n = isStale sL n) by (intros n; apply isStale_nodes, Hn).
+  assert (HBF' : BF s').
+  { destruct HBFL as [B1 B2]. split; [congruence|]. intros n y Hy. rewrite Hn in Hy. pose proof (B2 n y Hy) as Hb2.
+    unfold bf_node in *. rewrite Hnx. exact Hb2. }
+  constructor.
+  - exact HBF'.
+  - intros n. unfold stamps_node. rewrite Hnd, Hk', Hk. pose proof (HstL n).
+    rewrite !andb_true_iff, !Z.leb_le, Z.ltb_lt. lia.
+  - intros n Hg. rewrite Hnd in *. assert (Hd : isDone sL n = false).
+    { destruct (isDone sL n) eqn:Ed; [|reflexivity]. destruct (li_orig _ _ _ _ LL n (or_intror Ed)) as [Hg' _]. congruence. }
+    rewrite (Hun n Hd). apply (vi_unreg _ V). rewrite <- (Hun n Hd). exact Hg.
+  - intros n Hg Hs. rewrite Hnd in Hg. rewrite Hstale in Hs.
+    destruct (isDone sL n) eqn:Ed.
+    + (* it ran: only an Always node is stale again *)
+      apply Hqa. apply (proj1 HAL n); [|exact Ed].
+      apply isDone_iff in Ed. rewrite Hk in Ed.
+      unfold isStale in Hs. rewrite (bf_valid sL HBFL) in Hs. simpl in Hs.
+      assert (Hsw : staleWrtParents sL (nd sL n) = false).
+      { unfold staleWrtParents. destruct (existsb _ _) eqn:Ex; [|reflexivity].
+        apply existsb_elem in Ex as (p & _ & Hp). apply Z.gtb_lt in Hp. pose proof (HstL p). lia. }
+      assert (H0 : (recomputedAt (nd sL n) =? 0) = false) by (apply Z.eqb_neq; lia).
+      destruct (nkind (nd sL n)) eqn:K; try reflexivity; try discriminate Hs;
+        rewrite ?H0, ?Hsw in Hs; discriminate Hs.
+    + apply Hq. pose proof (li_owed _ _ _ _ LL n Hg Ed Hs) as Hw. unfold inW in Hw. rewrite orb_false_r in Hw. exact Hw.
+  - intros n Hg Hq' Hgd. rewrite Hnd in Hg.
+    assert (HqL : inW sL None n = false).
+    { unfold inW. rewrite orb_false_r. destruct (inHeap sL n) eqn:E; [|reflexivity]. rewrite (Hq n E) in Hq'. discriminate. }
+    assert (HgdL : guarded sL None n = true).
+    { unfold guarded in *. rewrite Hnd in Hgd. apply forallb_intro. intros p Hp.
+      pose proof (forallb_elem _ _ _ Hgd Hp) as Hb2. cbv beta in Hb2. rewrite !Hnd in Hb2.
+      apply andb_true_iff in Hb2 as [H1 H2]. rewrite H1. simpl. apply negb_true_iff in H2. apply negb_true_iff.
+      unfold volq in *. rewrite ?Hnd in H2. destruct (nkind (nd sL p)); try reflexivity.
+      - unfold inW in *. rewrite orb_false_r in *. destruct (inHeap sL p) eqn:E; [|reflexivity].
+        rewrite (Hq p E) in H2. discriminate.
+      - rewrite ?Hnd, Hk', Hk in H2. apply Z.ltb_ge in H2. pose proof (HstL p). lia. }
+    rewrite (node_consistent_nodes sL s' n Hn (bf_kind sL HBFL n)).
+    apply (li_clean _ _ _ _ LL n Hg HqL HgdL).
+Qed.
+
+(** C07: the function of [x] returns an error.  The pass returns it; the structural and the
+    quiescent invariant hold afterwards ([x] and everything the pass had not reached are still
+    queued); a fault-free retry succeeds and converges to the from-scratch values. *)
+Theorem pass_fail_retry s x s' e :
+  wfb s = true -> ValInv s -> stabilize (failPlan x) false s = Ok (s', Some e) ->
+  e = EUser x /\ wfb s' = true /\ ValInv s' /\ inHeap s' x = true /\
+  exists s'', stabilize [] false s' = Ok (s'', None) /\ consistent s'' = true /\
+              observers_agree s'' = true /\ wfb s'' = true /\ ValInv s''.
+Proof.
+  intros Hwf V H. destruct (wfb_transients _ Hwf) as (Hst & Hsd & Hsr & Hh).
+  pose proof (vi_bf _ V) as HBF. pose proof (wfb_Struct s Hwf HBF) as HS.
+  destruct (stabilize_decompose _ _ _ _ _ Hst H) as (sL & at_ & always & s2 & s3 & EL & ER & EP & EE).
+  unfold passResult in EL. cbv zeta in EL. simpl in EL.
+  set (s1 := EngineLocal.passStart s) in *.
+  assert (HS1 : Struct s1) by (destruct HS; constructor; assumption).
+  pose proof (LInv_start s Hwf V) as L1. change (PassProofs.passStart s) with s1 in L1.
+  assert (HA1 : AlwaysOK s1 []).
+  { split; [|intros y Hy; inv Hy]. intros y _ Hd. exfalso.
+    pose proof (stamps_node_true _ _ (vi_stamps _ V y)). unfold isDone in Hd. apply Z.eqb_eq in Hd.
+    change (recomputedAt (nd s y) = stabNum s) in Hd. lia. }
+  destruct (loop_fail _ _ x _ s1 [] sL (Some e) at_ always HS1 L1 HA1 EL) as (LL & FL & HAL & HuL & HcL & He).
+  destruct He as [[? _]|[[= ->] HqL]]; [discriminate|].
+  injection EP as <-.
+  pose proof (sf_Struct _ _ FL HS1) as HSL. pose proof (proj1 (li_heap _ _ _ _ LL)) as IL.
+  destruct (requeue_spec always sL s2 IL) as (OR & IR & MR & HinR & HcR); [| |exact ER|].
+  { intros y Hy. apply (st_hnonneg _ HSL). apply (proj2 HAL y Hy). }
+  { intros y Hy. apply (li_heap _ _ _ _ LL), Hy. }
+  destruct (stabilizeEnd_quiet s2 _ s' ltac:(rewrite (oh_setDuring _ _ OR), (sf_setDuring _ _ FL); exact Hsd)
+              ltac:(rewrite (oh_setRemoved _ _ OR), (sf_setRemoved _ _ FL); exact Hsr) EE)
+    as (En & Eh & Eb & Ex & Ek & Er & Eo & Ea & Ei & Enn & Em & Est & Ehd & Esd & Esr).
+  assert (Hnodes : nodes s' = nodes sL) by (rewrite En; apply (oh_nodes _ _ OR)).
+  pose proof (nodes_eq_nd _ _ Hnodes) as Hnd'.
+  assert (Hq' : forall y, inHeap s' y = true <-> y ∈ Heap.ids (heap sL) \/ y ∈ always).
+  { intros y. unfold inHeap. rewrite Eh. fold (inHeap s2 y). rewrite (inHeap_iff0 s2 y IR). apply MR. }
+  assert (V' : ValInv s').
+  { apply (finish_ValInv _ _ s sL always s' V HSL LL HAL (sf_stabNum _ _ FL)); try assumption.
+    - intros y Hy. apply (HuL y Hy).
+    - rewrite Eb. apply (oh_binds _ _ OR).
+    - rewrite Ex. apply (oh_next _ _ OR).
+    - rewrite Ek, (oh_stabNum _ _ OR). reflexivity.
+    - intros y Hy. apply Hq'. left. apply inHeap_iff0; assumption.
+    - intros y Hy. apply Hq'. right. exact Hy. }
+  assert (Hwf' : wfb s' = true).
+  { destruct (wfb_all _ Hwf) as (W1 & W2 & W3 & W4 & W5 & W6 & W7 & W8 & W9 & W10).
+    assert (Hsk : forall n, skel (nd s' n) = skel (nd s n)) by (intros n; rewrite Hnd'; apply (sf_nd _ _ FL)).
+    assert (Hhas : forall n, has s' n <-> has s n).
+    { intros n. unfold has. rewrite Hnodes. apply (sf_has _ _ FL). }
+    assert (Hnx : next s' = next s) by (rewrite Ex, (oh_next _ _ OR); apply (sf_next _ _ FL)).
+    apply wfb_intro.
+    - rewrite (wt_edges s s' Hsk Hhas Hnx). exact W1.
+    - apply (wt_unreg s s' Hsk Hhas Hnx W2). intros n Hq. rewrite Hnd'. apply Hq' in Hq as [Hq|Hq].
+      + apply (li_heap _ _ _ _ LL), Hq.
+      + apply (proj2 HAL n Hq).
+    - rewrite (wt_nec_clause s s' Hsk Hhas Hnx). exact W3.
+    - rewrite (wt_declared s s' Hsk Hhas Hnx). exact W4.
+    - rewrite (wt_heights s s' Hsk Hhas Hnx); [exact W5|]. rewrite Em, (oh_maxHeight _ _ OR). apply (sf_maxHeight _ _ FL).
+    - unfold queued_ok. rewrite Eh. apply andb_true_iff. split.
+      + apply heap_inv_b_complete; [exact IR|]. apply HcR, HcL.
+        unfold queued_ok in W6. apply andb_true_iff in W6 as [W6 _]. exact (heap_inv_b_cursor _ W6).
+      + apply forallb_intro. intros y Hy. rewrite Hnd'. apply andb_true_iff. split.
+        * apply MR in Hy as [Hy|Hy]; [apply (li_heap _ _ _ _ LL), Hy|apply (proj2 HAL y Hy)].
+        * apply Z.eqb_eq, HinR, Hy.
+    - rewrite (wt_counts s s' Hsk Hhas Hnx); [exact W7| | |].
+      + rewrite Er, (oh_reg _ _ OR). apply (sf_reg _ _ FL).
+      + rewrite Eo, (oh_obs _ _ OR). apply (sf_obs _ _ FL).
+      + rewrite Enn, (oh_numNodes _ _ OR). apply (sf_numNodes _ _ FL).
+    - apply (wt_transients s s' Hsk Hhas Hnx W8); try assumption.
+      + rewrite Ea, (oh_adj _ _ OR). apply (sf_adj _ _ FL).
+      + rewrite Ei, (oh_invq _ _ OR). apply (sf_invq _ _ FL).
+    - rewrite (wt_observers_clause s s' Hsk Hhas Hnx); [exact W9|]. rewrite Eo, (oh_obs _ _ OR). apply (sf_obs _ _ FL).
+    - unfold binds_ok. rewrite Eb, (oh_binds _ _ OR), (sf_binds _ _ FL). change (binds s1) with (binds s).
+      rewrite (proj1 HBF), map_to_list_empty. reflexivity. }
+  split; [reflexivity|]. split; [exact Hwf'|]. split; [exact V'|]. split.
+  - apply Hq'. left. apply inHeap_iff0; assumption.
+  - destruct (pass_total s' Hwf' V') as [s'' H''].
+    destruct (pass_all s' s'' Hwf' V' H'') as (A1 & A2 & A3 & A4). exists s''. auto.
+Qed.
+
+(** example: in [ex_pre] the function of node 4 fails *)
+Definition ex_fpost : state :=
+  match stabilize (failPlan 4) false ex_pre with Ok (s, Some _) => s | _ => init 0 end.
+Lemma ex_fpass : stabilize (failPlan 4) false ex_pre = Ok (ex_fpost, Some (EUser 4%nat)).
+Proof.
+  assert (H : match stabilize (failPlan 4) false ex_pre with Ok (_, Some (EUser 4%nat)) => true | _ => false end = true)
+    by (vm_compute; reflexivity).
+  unfold ex_fpost. destruct (stabilize (failPlan 4) false ex_pre) as [[s [e|]]| |]; try discriminate H.
+  destruct e; try discriminate H. destruct n as [|[|[|[|[|n]]]]]; try discriminate H. reflexivity.
+Qed.
+
+(** * D. Histories with writing plans and failing node functions *)
+
+(** the operations: those of [PassProofs.static_op], passes whose plan only writes vars, and
+    passes in which one node function returns an error *)
+Definition isFailPlan (p : plan) : bool :=
+  match p with [(_, WFn, AFail FErr)] => true | _ => false end.
+
+Definition static_op2 (o : op) : bool :=
+  static_op o || match o with Stabilize p => writes_only p || isFailPlan p | _ => false end.
+
+(** the result an operation may have: no error, or, for a failing plan, that node's error *)
+Definition outcome_ok (o : op) (e : option err) : bool :=
+  match e with
+  | None => true
+  | Some (EUser x) => match o with Stabilize [(y, WFn, AFail FErr)] => (x =? y)%nat | _ => false end
+  | Some _ => false
+  end.
+
+Inductive static_run2 : state -> list op -> state -> Prop :=
+| sr2_nil s : static_run2 s [] s
+| sr2_cons s o os s1 e s' :
+    static_op2 o = true -> op_ok s o = true -> step s o = Ok (s1, e) -> outcome_ok o e = true ->
+    wfb s1 = true -> static_run2 s1 os s' -> static_run2 s (o :: os) s'.
+
+Lemma isFailPlan_eq p : isFailPlan p = true -> exists x, p = failPlan x.
+Proof.
+  unfold isFailPlan. destruct p as [|[[x w] a] [|? ?]]; try discriminate; destruct w; try discriminate;
+    destruct a as [k| |]; try discriminate; destruct k; try discriminate. intros _. exists x. reflexivity.
+Qed.
+
+Lemma outcome_err o e : outcome_ok o (Some e) = true -> exists x, o = Stabilize (failPlan x) /\ e = EUser x.
+Proof.
+  unfold outcome_ok. destruct e; try discriminate. destruct o; try discriminate.
+  destruct p as [|[[y w] a] [|? ?]]; try discriminate; destruct w; try discriminate;
+    destruct a as [k| |]; try discriminate; destruct k; try discriminate.
+  intros H%Nat.eqb_eq. subst. exists y. auto.
+Qed.
+
+Theorem step2_ValInv s o s' e :
+  wfb s = true -> ValInv s -> static_op2 o = true -> op_ok s o = true ->
+  step s o = Ok (s', e) -> outcome_ok o e = true -> wfb s' = true -> ValInv s'.
+Proof.
+  intros Hwf V Hso Hok H Ho Hwf'. unfold static_op2 in Hso. apply orb_true_iff in Hso as [Hso|Hso].
+  - destruct e as [e|]; [|exact (step_ValInv s o s' Hwf V Hso Hok H Hwf')].
+    (* an error result is only allowed for a failing plan *)
+    destruct (outcome_err _ _ Ho) as (y & -> & ->). apply (pass_fail_retry s y s' _ Hwf V H).
+  - destruct o; try discriminate Hso. apply orb_true_iff in Hso as [Hw|Hf].
+    + destruct e as [e|].
+      * destruct (outcome_err _ _ Ho) as (y & [= ->] & ->). apply (pass_fail_retry s y s' _ Hwf V H).
+      * exact (step_writes_ValInv s p s' Hwf V Hw Hok H).
+    + destruct (isFailPlan_eq p Hf) as [x ->]. destruct e as [e|].
+      * apply (pass_fail_retry s x s' e Hwf V H).
+      * (* the failing function was not reached: a plan without writes *)
+        assert (Hw : writes_only (failPlan x) = false) by reflexivity.
+        (* the pass ran as the plan-free one up to its end *)
+        destruct (wfb_transients _ Hwf) as (Hst & Hsd & Hsr & Hh).
+        pose proof (vi_bf _ V) as HBF. pose proof (wfb_Struct s Hwf HBF) as HS.
+        cbn [step] in H.
+        destruct (stabilize_decompose _ _ _ _ _ Hst H) as (sL & at_ & always & s2 & s3 & EL & ER & EP & EE).
+        unfold passResult in EL. cbv zeta in EL. simpl in EL.
+        set (s1 := EngineLocal.passStart s) in *.
+        assert (HS1 : Struct s1) by (destruct HS; constructor; assumption).
+        pose proof (LInv_start s Hwf V) as L1. change (PassProofs.passStart s) with s1 in L1.
+        assert (HA1 : AlwaysOK s1 []).
+        { split; [|intros y Hy; inv Hy]. intros y _ Hd. exfalso.
+          pose proof (stamps_node_true _ _ (vi_stamps _ V y)). unfold isDone in Hd. apply Z.eqb_eq in Hd.
+          change (recomputedAt (nd s y) = stabNum s) in Hd. lia. }
+        destruct (loop_fail _ _ x _ s1 [] sL None at_ always HS1 L1 HA1 EL) as (LL & FL & HAL & HuL & HcL & He).
+        destruct He as [[_ Hemp]|[? _]]; [|discriminate].
+        injection EP as <-.
+        pose proof (sf_Struct _ _ FL HS1) as HSL. pose proof (proj1 (li_heap _ _ _ _ LL)) as IL.
+        destruct (requeue_spec always sL s2 IL) as (OR & IR & MR & HinR & HcR); [| |exact ER|].
+        { intros y Hy. apply (st_hnonneg _ HSL). apply (proj2 HAL y Hy). }
+        { intros y Hy. apply (li_heap _ _ _ _ LL), Hy. }
+        destruct (stabilizeEnd_quiet s2 _ s' ltac:(rewrite (oh_setDuring _ _ OR), (sf_setDuring _ _ FL); exact Hsd)
+                    ltac:(rewrite (oh_setRemoved _ _ OR), (sf_setRemoved _ _ FL); exact Hsr) EE)
+          as (En & Eh & Eb & Ex & Ek & _).
+        apply (finish_ValInv _ _ s sL always s' V HSL LL HAL (sf_stabNum _ _ FL)).
+        -- intros y Hy. apply (HuL y Hy).
+        -- rewrite En. apply (oh_nodes _ _ OR).
+        -- rewrite Eb. apply (oh_binds _ _ OR).
+        -- rewrite Ex. apply (oh_next _ _ OR).
+        -- rewrite Ek, (oh_stabNum _ _ OR). reflexivity.
+        -- intros y Hy. apply (inHeap_iff0 sL y IL) in Hy. rewrite Hemp in Hy. inv Hy.
+        -- intros y Hy. unfold inHeap. rewrite Eh. fold (inHeap s2 y). apply (inHeap_iff0 s2 y IR), MR. right. exact Hy.
+Qed.
+
+Lemma static_run2_inv s os s' :
+  wfb s = true -> ValInv s -> static_run2 s os s' -> wfb s' = true /\ ValInv s'.
+Proof.
+  intros Hwf V R. induction R as [s|s o os s1 e s' Hso Hok Hst Hout Hwf1 R IH]; [auto|].
+  apply IH; [exact Hwf1|]. exact (step2_ValInv s o s1 e Hwf V Hso Hok Hst Hout Hwf1).
+Qed.
+
+Lemma static_run2_split s os1 : forall o os2 s',
+  static_run2 s (os1 ++ o :: os2) s' ->
+  exists s1 s2 e, static_run2 s os1 s1 /\ static_op2 o = true /\ op_ok s1 o = true /\
+                  step s1 o = Ok (s2, e) /\ outcome_ok o e = true /\ wfb s2 = true /\ static_run2 s2 os2 s'.
+Proof.
+  revert s. induction os1 as [|o1 os1 IH]; intros s o os2 s' R; simpl in R.
+  - inv R. exists s, s1, e. split; [constructor|auto 10].
+  - inv R. match goal with HR : static_run2 _ (os1 ++ _) _ |- _ =>
+             destruct (IH _ _ _ _ HR) as (t1 & t2 & e2 & R1 & Hrest) end.
+    exists t1, t2, e2. split; [|exact Hrest]. econstructor; eauto.
+Qed.
+
+(** C01 / C07 / C12 for histories: whatever writes and failures the earlier passes had, every
+    plan-free pass of the history succeeds and leaves every registered node locally consistent
+    and every observer reading the from-scratch value *)
+Theorem static_history2_consistent s0 os1 os2 s' :
+  wfb s0 = true -> ValInv s0 -> static_run2 s0 (os1 ++ Stabilize [] :: os2) s' ->
+  exists s1 s2, static_run2 s0 os1 s1 /\ step s1 (Stabilize []) = Ok (s2, None) /\
+                consistent s2 = true /\ observers_agree s2 = true /\ wfb s2 = true /\ ValInv s2.
+Proof.
+  intros Hwf V R. destruct (static_run2_split _ _ _ _ _ R) as (s1 & s2 & e & R1 & Hso & Hok & Hst & Hout & Hwf2 & _).
+  destruct (static_run2_inv _ _ _ Hwf V R1) as [Hwf1 V1].
+  destruct (pass_total s1 Hwf1 V1) as [s2' H2]. cbn [step] in Hst. rewrite H2 in Hst. injection Hst as <- <-.
+  exists s1, s2'. split; [exact R1|]. split; [exact H2|].
+  destruct (pass_all s1 s2' Hwf1 V1 H2) as (Hc & Hw & V2 & Ho). auto.
+Qed.
+
+Fixpoint static_run2_b (s : state) (os : list op) : option state :=
+  match os with
+  | [] => Some s
+  | o :: os =>
+    if static_op2 o && op_ok s o then
+      match step s o with
+      | Ok (s1, e) => if outcome_ok o e && wfb s1 then static_run2_b s1 os else None
+      | _ => None
+      end
+    else None
+  end.
+
+Lemma static_run2_b_sound os : forall s s', static_run2_b s os = Some s' -> static_run2 s os s'.
+Proof.
+  induction os as [|o os IH]; intros s s' H; simpl in H.
+  - injection H as <-. constructor.
+  - destruct (static_op2 o && op_ok s o) eqn:E1; [|discriminate]. apply andb_true_iff in E1 as [E1 E2].
+    destruct (step s o) as [[s1 e]| |] eqn:E3; try discriminate.
+    destruct (outcome_ok o e && wfb s1) eqn:E4; [|discriminate]. apply andb_true_iff in E4 as [E4 E5].
+    econstructor; eauto.
+Qed.
+
+(** an example history: the history of [ex_ops], a pass in which the function of node 4 fails, a
+    pass whose plan writes a var, and a plan-free pass *)
+Definition ex_history2 : list op :=
+  ex_ops ++ [Stabilize (failPlan 4); Stabilize [(9%nat, WFn, ASet 0%nat 8)]] ++ Stabilize [] :: [].
+
+Lemma ex_history2_runs : exists s', static_run2 (init 64) ex_history2 s'.
+Proof.
+  assert (H : match static_run2_b (init 64) ex_history2 with Some _ => true | None => false end = true)
+    by (vm_compute; reflexivity).
+  destruct (static_run2_b (init 64) ex_history2) as [s'|] eqn:E; [|discriminate H].
+  exists s'. apply static_run2_b_sound. exact E.
+Qed.
